@@ -258,78 +258,85 @@ def run(ctx):
             lam_kind, lam = gen_lambda(r, n, N, W)
             rho = c["rho"]
             cb = (lambda rho_, rp, tp, rd, td: rho_ * 2 if rp > 10 * rd else (rho_ / 2 if rd > 10 * rp else rho_)) if c["rho_update"] else None
-        calls = []
-        orig = solver.check_convergence
+        # a sequence of solves in one process: an array-valued lambda is UPDATED IN PLACE between solves
+        # (same object, new contents), as a caller sweeping the penalty would do
+        n_seq = 3 if (isinstance(lam, np.ndarray) and c.get("seed", 0) % 2 == 0) else 1
+        for seq_i in range(n_seq):
+            if seq_i > 0:
+                lam *= (8.0 if seq_i == 1 else 0.03125)
+                ctx.count("inplace_lambda_updates")
+            calls = []
+            orig = solver.check_convergence
 
-        def cc(args, u, x, z, z_old):
-            out = orig(args, u, x, z, z_old)
-            calls.append((bool(out[0]), float(out[2]), float(out[4]), float(args.rho)))
-            return out
-        with tu.patched(solver, "check_convergence", cc), warnings.catch_warnings():
-            warnings.simplefilter("ignore")
-            res = admm.admm_optimize_theta(S.copy(), lam, W, N, rho=rho, rho_update=cb)
-        stopped = bool(calls and calls[-1][0])
-        iters = len(calls) + 1
-        if stopped:
-            max_iter_seen = max(max_iter_seen, iters)
-        ctx.count("stopped_by_rule" if stopped else "budget_exhausted")
-        ctx.count("lambda:" + lam_kind)
-        ctx.count("cov:" + kind)
-        if c.get("unconditional") and not stopped:
-            ctx.violation("impl-violation", f"rho=1, lambda={lam}, eig(S) in [0.25,4]: did not stop within the budget",
-                          c, {"site": "unconditional-convergence"})
-        if stopped:
-            theta = mc.reinflate_matrix(res.theta)
-            tol_p, tol_d, rho_f = calls[-1][1], calls[-1][2], calls[-1][3]
-            bad = None
-            if not np.array_equal(theta, theta.T) or not np.all(np.isfinite(theta)):
-                bad = "not symmetric / not finite"
-            else:
-                try:
-                    np.linalg.cholesky(theta)
-                except np.linalg.LinAlgError:
-                    bad = "not positive definite"
-            if bad is None:
-                G = np.linalg.inv(theta) - S
-                for (b, rr_, cc_) in classes(N, W):
-                    pos = positions(b, rr_, cc_, N, W)
-                    vals = np.array([theta[R, C] for (R, C) in pos])
-                    if np.max(vals) - np.min(vals) > 4 * tol_p:
-                        bad = f"not block-Toeplitz to within the stopping tolerance on class {(b, rr_, cc_)} (spread {np.max(vals) - np.min(vals):.2e})"
-                        break
-                    g = float(sum(G[R, C] for (R, C) in pos))
-                    Lam = lambda_class_sum(lam, b, rr_, cc_, N, W)
-                    zc = float(np.mean(vals))
-                    bound = 3 * math.sqrt(len(pos)) * (tol_d + rho_f * tol_p) + 1e-9 * (1 + abs(g))
-                    if abs(zc) > 2 * tol_p:
-                        resid = abs(g - Lam * math.copysign(1, zc))
-                    else:
-                        resid = max(0.0, abs(g) - Lam)
-                    if resid > bound:
-                        bad = (f"KKT certificate fails on class {(b, rr_, cc_)}: |sum(X^-1 - S) - Lambda sign(z)| = {resid:.3e} "
-                               f"> {bound:.3e} (z={zc:.3e}, Lambda={Lam:.3g})")
-                        break
-            if bad is None:
-                f0 = objective(theta, S, lam)
-                rs = np.random.RandomState(c["seed"] % 2 ** 31)
-                for _ in range(20):
-                    D = np.zeros((n, n))
+            def cc(args, u, x, z, z_old):
+                out = orig(args, u, x, z, z_old)
+                calls.append((bool(out[0]), float(out[2]), float(out[4]), float(args.rho)))
+                return out
+            with tu.patched(solver, "check_convergence", cc), warnings.catch_warnings():
+                warnings.simplefilter("ignore")
+                res = admm.admm_optimize_theta(S.copy(), lam, W, N, rho=rho, rho_update=cb)
+            stopped = bool(calls and calls[-1][0])
+            iters = len(calls) + 1
+            if stopped:
+                max_iter_seen = max(max_iter_seen, iters)
+            ctx.count("stopped_by_rule" if stopped else "budget_exhausted")
+            ctx.count("lambda:" + lam_kind)
+            ctx.count("cov:" + kind)
+            if c.get("unconditional") and not stopped:
+                ctx.violation("impl-violation", f"rho=1, lambda={lam}, eig(S) in [0.25,4]: did not stop within the budget",
+                              c, {"site": "unconditional-convergence"})
+            if stopped:
+                theta = mc.reinflate_matrix(res.theta)
+                tol_p, tol_d, rho_f = calls[-1][1], calls[-1][2], calls[-1][3]
+                bad = None
+                if not np.array_equal(theta, theta.T) or not np.all(np.isfinite(theta)):
+                    bad = "not symmetric / not finite"
+                else:
+                    try:
+                        np.linalg.cholesky(theta)
+                    except np.linalg.LinAlgError:
+                        bad = "not positive definite"
+                if bad is None:
+                    G = np.linalg.inv(theta) - S
                     for (b, rr_, cc_) in classes(N, W):
-                        v = rs.randn()
-                        for (R, C) in positions(b, rr_, cc_, N, W):
-                            D[R, C] = v
-                            D[C, R] = v
-                    D /= max(np.linalg.norm(D), 1e-12)
-                    for t in (1e-2, 1e-1):
-                        f1 = objective(theta + t * D, S, lam)
-                        if f1 < f0 - t * (n * 3 * (tol_d + rho_f * tol_p) * 4) - 1e-9 * (1 + abs(f0)):
-                            bad = f"a block-Toeplitz perturbation lowers the objective by {f0 - f1:.3e} (step {t})"
+                        pos = positions(b, rr_, cc_, N, W)
+                        vals = np.array([theta[R, C] for (R, C) in pos])
+                        if np.max(vals) - np.min(vals) > 4 * tol_p:
+                            bad = f"not block-Toeplitz to within the stopping tolerance on class {(b, rr_, cc_)} (spread {np.max(vals) - np.min(vals):.2e})"
                             break
-                    if bad:
-                        break
-            if bad:
-                ctx.violation("impl-violation", f"stopped run ({lam_kind} lambda, rho={rho}, cov {kind}, N={N}, W={W}): {bad}",
-                              c, {"site": "kkt"})
+                        g = float(sum(G[R, C] for (R, C) in pos))
+                        Lam = lambda_class_sum(lam, b, rr_, cc_, N, W)
+                        zc = float(np.mean(vals))
+                        bound = 3 * math.sqrt(len(pos)) * (tol_d + rho_f * tol_p) + 1e-9 * (1 + abs(g))
+                        if abs(zc) > 2 * tol_p:
+                            resid = abs(g - Lam * math.copysign(1, zc))
+                        else:
+                            resid = max(0.0, abs(g) - Lam)
+                        if resid > bound:
+                            bad = (f"KKT certificate fails on class {(b, rr_, cc_)}: |sum(X^-1 - S) - Lambda sign(z)| = {resid:.3e} "
+                                   f"> {bound:.3e} (z={zc:.3e}, Lambda={Lam:.3g})")
+                            break
+                if bad is None:
+                    f0 = objective(theta, S, lam)
+                    rs = np.random.RandomState(c["seed"] % 2 ** 31)
+                    for _ in range(20):
+                        D = np.zeros((n, n))
+                        for (b, rr_, cc_) in classes(N, W):
+                            v = rs.randn()
+                            for (R, C) in positions(b, rr_, cc_, N, W):
+                                D[R, C] = v
+                                D[C, R] = v
+                        D /= max(np.linalg.norm(D), 1e-12)
+                        for t in (1e-2, 1e-1):
+                            f1 = objective(theta + t * D, S, lam)
+                            if f1 < f0 - t * (n * 3 * (tol_d + rho_f * tol_p) * 4) - 1e-9 * (1 + abs(f0)):
+                                bad = f"a block-Toeplitz perturbation lowers the objective by {f0 - f1:.3e} (step {t})"
+                                break
+                        if bad:
+                            break
+                if bad:
+                    ctx.violation("impl-violation", f"stopped run ({lam_kind} lambda, rho={rho}, cov {kind}, N={N}, W={W}): {bad}",
+                                  c, {"site": "kkt"})
         lam_pos = (isinstance(lam, np.ndarray) or lam > 0)
         ctx.case(("problem", repr(sorted(c.items()))), nontrivial=n >= 2 and lam_pos,
                  sample={"N": N, "W": W, "lambda": lam_kind, "rho": rho, "cov": kind, "stopped": stopped, "iterations": iters}
